@@ -216,6 +216,16 @@ fn d60() -> Result<(), String> {
     let batch = match run_engine_batch(R3, q, &lines) { RowsOutcome::Rows { rows, .. } => format!("{:?}", rows), other => format!("{:?}", other) };
     if follow == batch { Ok(()) } else { Err(format!("after line 2 follow mode shows {} but a batch run over both lines gives {}", follow, batch)) }
 }
+// D65 (C11 at program level): follow mode, CSV format, aggregate statement: every screen must be the batch output over the
+// lines consumed so far — the second refresh must show the header again
+fn d65() -> Result<(), String> {
+    let c = crate::e2ef::FCase { defs: "CREATE TABLE t(line = '(.*)', line[1] => x TEXT);".to_owned(), query: "SELECT COUNT(*) AS n FROM t".to_owned(),
+        format: sqlgrep::executor::OutputFormat::CSV(";".to_owned()), head: true, initial: b"a\nb\n".to_vec(), acts: Vec::new(), family: "witness" };
+    let a = crate::e2ef::run_real(&c);
+    // C, header, row, C, header, row
+    let want = format!("ok out=C,{},{},C,{},{}", crate::util::hex(b"n"), crate::util::hex(b"1"), crate::util::hex(b"n"), crate::util::hex(b"2"));
+    if a == want { Ok(()) } else { Err(format!("sqlgrep --follow --head --format csv wrote {} (C = screen cleared); every screen should be the batch output: {}", a, want)) }
+}
 // D61 (C11): aggregate over a JOIN in follow mode, a line with two partners: the refresh must be ONE table (the batch table)
 fn d61() -> Result<(), String> {
     let p = tmp_file("B;x;1\nB;y;1\n".as_bytes());
@@ -423,6 +433,7 @@ pub fn all() -> Vec<Witness> {
         w!("D63", &["C03"], "TIMESTAMP - INTERVAL (and * and /) adds the interval", d63),
         w!("D64", &["C03"], "make_timestamp with the README's seven arguments is an undefined function", d64),
         w!("D60", &["C11"], "REAL keys 0.0 / -0.0: follow mode and batch mode show different representatives of one group", d60),
+        w!("D65", &["C11"], "follow mode, CSV, aggregate statement: the header is shown on the first screen only", d65),
         w!("D61", &["C11"], "follow mode, aggregate over a join: a line with several partners showed one table per partner, concatenated (fixed 7277b4c)", d61),
         w!("D24", &["C08", "C11"], "aggregate DISTINCT+HAVING empties the table on refresh", d24),
         w!("D25", &["C09"], "TIMESTAMP text in a DST gap / overlap of the local zone panics (unwrap of LocalResult)", d25),
